@@ -84,12 +84,13 @@ impl CoordIndex {
             .unwrap_or(0)
             .max(index.direct_index.len().max(1) - 1);
 
-        let start_offset = (index.max_matrix_index + 1).pow(2);
+        // NOTE a huge reference index is rejected by validation later: must not overflow here
+        let start_offset = index.max_matrix_index.saturating_add(1).saturating_pow(2);
         // NOTE promote custom locations to the index to use usize outside
         index.custom_locations.iter().enumerate().for_each(|(offset, location)| {
             debug_assert!(matches!(location, Location::Custom { .. }));
 
-            let value = start_offset + offset;
+            let value = start_offset.saturating_add(offset);
             index.direct_index.insert(location.clone(), value);
             index.reverse_index.insert(value, location.clone());
         });
@@ -141,8 +142,8 @@ impl CoordIndex {
 
     /// Checks whether given id belongs to special (custom) location range.
     pub(crate) fn is_special_index(&self, index: usize) -> bool {
-        let start = (self.max_matrix_index + 1).pow(2);
-        let end = start + self.custom_locations_len();
+        let start = self.max_matrix_index.saturating_add(1).saturating_pow(2);
+        let end = start.saturating_add(self.custom_locations_len());
 
         (start..end).contains(&index)
     }
